@@ -249,6 +249,60 @@ theorem connect_cm {reg : Registry} {vt : VarTable} {l : List (VRef × VRef)} {s
     (h : connect reg vt l = .ok st) : CmInv vt st :=
   connectLoop_cm l 0 (Nat.zero_le _) (initState vt) st (inv_init reg vt l) (cm_init vt) h
 
+theorem prepare_connect {doc : Doc} {L : Loaded} (h : prepare doc = .ok L) : connect L.reg L.vt L.dl = .ok L.st := by
+  unfold prepare at h
+  split at h
+  · cases h
+  · split at h
+    · cases h
+    · simp only at h
+      split at h
+      · cases h
+      · split at h
+        · cases h
+        · split at h
+          · cases h
+          · rename_i hc
+            simp only [Except.ok.injEq] at h
+            subst h
+            exact hc
+
+theorem load_prepare {doc : Doc} {F : Flat} (h : load doc = .ok F) : ∃ L, prepare doc = .ok L ∧ F = L.flat doc := by
+  unfold load at h
+  split at h
+  · cases h
+  · rename_i L hL
+    split at h
+    · cases h
+    · split at h
+      · cases h
+      · simp only [Except.ok.injEq] at h
+        exact ⟨L, hL, h.symm⟩
+
+/-- where the id of `v0` is after resolution, and why the flat equations know that variable -/
+theorem home_facts {reg : Registry} {vt : VarTable} {l : List (VRef × VRef)} {st : CState}
+    (h : connect reg vt l = .ok st) (v0 : VRef) :
+    (st.asg v0 = none ∧ home st v0 = v0) ∨
+    (st.asg v0 = some (home st v0) ∧ st.asg (home st v0) = some (home st v0) ∧
+      ((Src vt (home st v0) ∧ rootOf st v0 = home st v0) ∨ ∃ e ∈ st.convs, e.target = home st v0)) := by
+  have inv := connect_inv h
+  have cm := connect_cm h
+  cases ha : st.asg v0 with
+  | none => left; exact ⟨rfl, by unfold home; rw [ha]; rfl⟩
+  | some a =>
+    right
+    have hh : home st v0 = a := by unfold home; rw [ha]; rfl
+    rw [hh]
+    have haa := inv.asg_self v0 a ha
+    refine ⟨rfl, haa, ?_⟩
+    rcases cm.selfAsg a haa with hs | hc
+    · left
+      refine ⟨hs, ?_⟩
+      have h1 : rootOf st v0 = root st.mapping v0 := inv.wf.resolve_eq_root _ v0 (Nat.le_refl _)
+      rw [h1, ← inv.asg_root v0 a ha]
+      exact inv.wf.root_src hs
+    · exact Or.inr hc
+
 /-! ## the rule before the repair (commit df25620): the id went to the direct `source` of the connection -/
 
 def stepConnToday (reg : Registry) (vt : VarTable) (st : CState) (c : VRef × VRef) : Except Err (Option CState) :=
